@@ -553,6 +553,14 @@ def C08(c):
         cover.cover_ring(c, "ring_atomic_resv", "atomic", [[RS, RS, FL(1, 12), UL(1), FL(0, 11), PB(0), RS, FL(0, 13), PB(0)], [D, D, D]], origin=o)
         cover.cover_ring(c, "ring_atomic_resv2", "atomic", [[RS, FL(0, 11), PB(0), RS, UL(0), RS, FL(0, 12), PB(0), E(13)], [D, D, D]], origin=o)
     checks = ["InvLinearizable", "InvDeliveredAtMostOnce", "InvNoLossNoInvention", "NoPanic", "InvPendingCount"]
+    # ... and of the channel layer on top of it: UniChan's reserve_slot / try_send_reserved (with its wake rule) / try_cancel_slot_reserve against a
+    # driven stream -- every transition replayed into the real movable atomic Uni channel, validated against UniChan, judged by the L1 verdicts
+    SR1, CR1 = (lambda i: op("send_reserved", 0, i, tries=1)), (lambda i: op("cancel_reserved", 0, i, tries=1))
+    resv_inv = ("InvLinearizable", "InvBounds", "InvChanTypes", "InvWakersLock", "InvNoLoss", "InvNoLostWakeup")
+    cover.cover_unichan(c, "unichan_resv", [[RS, FL(0, 11), RS, FL(1, 12), CR1(1), SR1(0), RS, FL(0, 13), SR1(0)], [DRIVE(0, max_=2)]], checks + ["InvNoLostWakeup"], invariants=resv_inv)
+    if not quick:
+        cover.cover_unichan(c, "unichan_resv_n2", [[RS, FL(0, 11), RS, FL(1, 12), RS, SR1(0), SR1(0), RS, FL(0, 13), SR1(0)], [DRIVE(0, max_=3)]], checks + ["InvNoLostWakeup"], n=2, invariants=resv_inv)
+        cover.cover_unichan(c, "unichan_resv_send", [[RS, FL(0, 11), SR1(0), RS, FL(0, 12), CR1(0)], [S(21)], [DRIVE(0, max_=2)]], checks + ["InvNoLostWakeup"], invariants=resv_inv)
     cnt, ln = (8, 8) if quick else (60, 12)
     mr, rr = (150, 100) if quick else (3000, 2000)
 
